@@ -190,6 +190,25 @@ PROPS["C02"] = dict(
     design="DESIGN.md §4 C02",
 )
 
+PROPS["C03"] = dict(
+    technique="static analysis: polynomial (linear-form) abstract interpretation of the memory model against the property's formula, origin analysis of the model's operands, max-join structure of fused projections, streaming discipline of block iterators, unit (dimension) check of declared extra memory",
+    text=(
+        "Decides the model-consistency part: calculate_projected_mem, evaluated as a polynomial, has "
+        "coefficients >= those of the formula in the property text; the primitive feeds it all operand arrays "
+        "(largest chunk), the maximum over all outputs, the caller's extra memory and reserved memory; a fused "
+        "operation reports max(successor, peak over all fused predecessors) with a peak model that allocates "
+        "every predecessor fully and frees at most projected - result; variable-length block groups are handed "
+        "over as iterators and consumed one block at a time through fusion; declared extra memory has unit "
+        "bytes (thorough tier)."
+    ),
+    note=(
+        "Does NOT decide that a task's real allocations stay under the bound (NumPy temporaries, codec "
+        "buffers, adequacy of each extra_projected_mem declaration): that is a runtime quantity no static "
+        "argument in reach bounds (DESIGN.md §4 C03)."
+    ),
+    design="DESIGN.md §4 C03",
+)
+
 CLAIMED = sorted(PROPS)
 
 NOT_APPLICABLE = {
